@@ -32,7 +32,7 @@ CONST = ("c", "r", "name", "cn", "cs", "ca")
 
 def _ops():
     return st.one_of(
-        st.tuples(st.just("new"), st.integers(0, 1), st.sampled_from(["", "", "c", "r", "name", "cn", "cs"]), _o),
+        st.tuples(st.just("new"), st.integers(0, 2), st.sampled_from(["", "", "c", "r", "name", "cn", "cs"]), _o),
         st.tuples(st.just("set"), _i, st.integers(0, 6), _o, st.sampled_from(["attr", "update"])),
         st.tuples(st.just("inst_const"), _i),
         # a reference (a Parameter of another object) assigned to the constant allow_refs parameter: refused like any value
@@ -44,7 +44,7 @@ def _ops():
         st.tuples(st.just("pf_instance"), st.sampled_from(["cls_ro", "inst_ro"]), _o),
         st.tuples(st.just("set"), _i, st.integers(0, 4), _o, st.sampled_from(["attr", "update"])),
         st.tuples(st.just("set_same"), _i, st.integers(0, 4), st.sampled_from(["attr", "update"])),
-        st.tuples(st.just("cls_set"), st.integers(0, 1), st.integers(0, 3), _o),
+        st.tuples(st.just("cls_set"), st.integers(0, 2), st.integers(0, 4), _o),
         st.tuples(st.just("enter"), _i),
         st.tuples(st.just("exit"), st.booleans()),
         st.tuples(st.just("read"), _i, st.integers(0, 4)),
@@ -217,7 +217,9 @@ def execute(case):
         "__call__": lambda self, **kw: None,
     })
     K2 = type("K2", (K,), {})
-    classes = [K, K2]
+    # a class that overrides the default of `name`: its instances get that name instead of a generated one
+    KN = type("KN", (K,), {"name": param.String(default="custom-name", constant=True)})
+    classes = [K, K2, KN]
     insts = []        # list of dict(obj=..., held={...}, foreign=bool)
     stack = []        # open blocks: (cm, owner_index, flags_at_entry)
     state = {"sub_cls_set": False, "bad_exit": False, "nested": False, "copy": False}
@@ -425,7 +427,7 @@ def execute(case):
             continue
         elif kind == "cls_set":
             cls = classes[op[1]]
-            n = ["c", "r", "cn", "cs"][op[2]]
+            n = ["c", "r", "cn", "cs", "name"][op[2]]
             v = val_for(n, op[3])
             try:
                 setattr(cls, n, v)
